@@ -488,7 +488,9 @@ pub fn drop_with_queued_writes(args: &[String], out: &mut Sink) {
                 grows[0]
             ));
         }
-        let late: Vec<&String> = later.iter().filter(|l| !l.contains("SetLen:allocator.grow") && (l.contains("Write") || l.contains("SetLen") || l.contains("Fsync"))).collect();
+        // only COMPLETIONS count (an `End` event: the operation really reached the file); a Begin of the orphaned task that dies on the
+        // closed I/O pool is not a write
+        let late: Vec<&String> = later.iter().filter(|l| l.starts_with("End:") && !l.contains("SetLen:allocator.grow") && (l.contains("Write") || l.contains("SetLen") || l.contains("Fsync"))).collect();
         out.add("queued_writes_inflight_at_drop", inflight_at_drop.max(0) as u64);
         out.count("queued_writes_rounds");
         if !late.is_empty() {
